@@ -265,8 +265,39 @@ def run(ctx):
            '' if ok else ('QueryType.__eq__ compares `%s`, which maps different limits to the same value (0 and None): `x in q.limit(0)` and `x in q` then share one cache key and '
                           'one of them is answered with the other\'s SQL' % norm(lossy[0][1])) if lossy else 'QueryType.__eq__ does not compare the limits of both operands')
 
+    # ---------------------------------------------------------------- ZERO
+    # a limit is None (no limit) or a number, and 0 is a number ("no rows"): at the query / translator level every test on a limit is a comparison
+    # (`is None`, `is not None`, `== 0`, ...).  A truthiness test treats limit 0 as "no limit": `p in q.limit(0)` then matches every row of q.
+    # (An offset of 0 and no offset mean the same, so offsets may be tested for truth.  The SQL builders receive AST nodes, not numbers.)
+    def truth_operands(e):
+        if isinstance(e, ast.BoolOp):
+            for v in e.values: yield from truth_operands(v)
+        elif isinstance(e, ast.UnaryOp) and isinstance(e.op, ast.Not): yield from truth_operands(e.operand)
+        else: yield e
+    def is_limit(e):
+        d = dotted(e) if isinstance(e, (ast.Name, ast.Attribute)) else None
+        return bool(d) and (d.split('.')[-1] == 'limit' or d.split('.')[-1].endswith('_limit'))
+    nz = 0
+    for f in repo.rule_funcs():
+        if f.mod.name not in ('pony.orm.sqltranslation', 'pony.orm.core'): continue
+        for n in walk_no_nested(f.node):
+            tests = [n.test] if isinstance(n, (ast.If, ast.While, ast.Assert)) else []
+            if isinstance(n, ast.stmt) and not isinstance(n, (ast.If, ast.While, ast.For, ast.With, ast.Try, ast.FunctionDef, ast.ClassDef)):
+                tests += [x.test for x in ast.walk(n) if isinstance(x, ast.IfExp)]
+                tests += [x for x in ast.walk(n) if isinstance(x, ast.BoolOp)]
+            for t in tests:
+                if not any(is_limit(x) for x in ast.walk(t)): continue
+                nz += 1
+                bad = [o for o in truth_operands(t) if is_limit(o)]
+                ctx.ob('C24-ZERO.limit-is-compared-never-tested-for-truth', f, t, not bad,
+                       '' if not bad else '`%s` tests a limit for truth: limit 0 ("no rows") is taken for "no limit", so a subquery limited to 0 rows is embedded without LIMIT '
+                       'and `x in q.limit(0)` matches every row of q' % norm(t)[:60], node=n)
+    ctx.floor('C24-ZERO', nz, 6, 'tests that mention a limit')
+
 
 MUTANTS = [
+    dict(id='C24-zero1', file='pony/orm/sqltranslation.py', fn='SQLTranslator.dispatch_external', old="            if t.limit is not None or t.offset is not None:", new="            if t.limit or t.offset:", expect='C24-ZERO'),
+    dict(id='C24-zero2', file='pony/orm/sqltranslation.py', fn='SQLTranslator.dispatch_external', old="            if t.limit is not None or t.offset is not None:", new="            if t.limit is not None or t.offset:", benign=True),
     dict(id='C24-qt', file='pony/orm/ormtypes.py', fn='QueryType.__eq__', old="and self.limit == other.limit and self.offset == other.offset", new="and bool(self.limit) == bool(other.limit) and self.offset == other.offset", expect='C24-RANGE.limited-subquery-type'),
     dict(id='C24-o1', file='pony/orm/sqltranslation.py', fn='SQLTranslator.construct_delete_sql_ast', old="                if translator.order: subquery_ast.append([ 'ORDER_BY' ] + translator.order)\n                limit = translator.limit if translator.limit is not None else -1 if translator.dialect == 'SQLite' else None\n",
          new="                limit = translator.limit\n                if limit is None:\n                    if translator.dialect == 'SQLite': limit = -1\n                elif translator.order: subquery_ast.append([ 'ORDER_BY' ] + translator.order)\n", expect='C24-SIBLING.limited'),
